@@ -50,7 +50,7 @@ class TraceInterp(WalkInterp):
             return self.NOT_HANDLED
         r = WalkInterp.on_call(self, text, callee, args, kwargs, node, frame)
         if r is None and isinstance(callee, FuncRef) and callee.fi.name == 'process_new_refval' and callee.fi.cls is not None \
-                and callee.fi.cls.name in ('Decoder', 'Encoder') and len(args) >= 3:
+                and self.repo.is_subclass(callee.fi.cls.name, 'Coder') and callee.fi.cls.name != 'TemplateCompiler' and len(args) >= 3:
             # side effect of the real primitive (decided by C01.R10 / C02): state.new_refvals[descriptor.id] = value read / written
             st, d = args[0], args[2]
             if isinstance(st, Obj) and isinstance(st.fields.get('new_refvals'), dict) and isinstance(d, Obj):
@@ -501,11 +501,24 @@ def rule_r2(repo):
     rr = RuleResult('C08.R2', 'every CoderState method the generic walk calls, and every abstract primitive, is recorded by the compiler')
     coder = repo.cls('Coder')
     state_methods = set(repo.cls('CoderState').methods)
+    # what the compiler actually runs: everything reachable from its template walk, resolved for the TemplateCompiler class (a generic
+    # method that the compiler overrides - and the hooks only that method calls - is not part of it)
+    from sa.model import CallGraph
+    cg = CallGraph(repo, 'TemplateCompiler')
+    reach = cg.reachable([repo.method('TemplateCompiler', 'process_template')])
+    if len(reach) < 12:
+        raise AnalysisError('the template walk of the compiler reaches only %d functions' % len(reach))
     called = {}
-    for fi in coder.methods.values():
+    self_calls = {}
+    for fi in reach:
+        if fi.cls is None or fi.cls.name in ('TemplateCompiler', 'CompilerState', 'CoderState'):
+            continue
         for c in effects(fi).calls:
-            if isinstance(c.func, ast.Attribute) and isinstance(c.func.value, ast.Name) and c.func.value.id == 'state' and c.func.attr in state_methods:
-                called.setdefault(c.func.attr, fi)
+            if isinstance(c.func, ast.Attribute) and isinstance(c.func.value, ast.Name):
+                if c.func.value.id == 'state' and c.func.attr in state_methods:
+                    called.setdefault(c.func.attr, fi)
+                elif c.func.value.id == 'self':
+                    self_calls.setdefault(c.func.attr, fi)
     cs = repo.cls('CompilerState')
     for nm, fi in sorted(called.items()):
         rr.instance('state.%s() called by %s' % (nm, fi.qualname))
@@ -520,9 +533,13 @@ def rule_r2(repo):
     for nm, fi in sorted(coder.methods.items()):
         if not fi.is_abstract or nm in ('process', 'process_section'):
             continue
-        rr.instance('abstract %s overridden by TemplateCompiler' % nm)
-        if nm not in tc.methods:
-            rr.fail('TemplateCompiler.%s:missing' % nm, fi.where, 'abstract Coder.%s is not overridden by TemplateCompiler' % nm)
+        if nm not in self_calls:
+            continue        # an abstract hook that nothing the compiler runs calls
+        rr.instance('abstract %s (called by %s) is implemented for TemplateCompiler' % (nm, self_calls[nm].qualname))
+        impl = repo.method('TemplateCompiler', nm, required=False)
+        if impl is None or impl.is_abstract:
+            rr.fail('TemplateCompiler.%s:missing' % nm, fi.where, 'abstract Coder.%s is called by %s while compiling and is not overridden by TemplateCompiler' % (
+                nm, self_calls[nm].qualname))
     # data-dependent walk methods are overridden too
     for nm in ('process_fixed_replication_descriptor', 'process_delayed_replication_descriptor', 'process_bitmapped_descriptor', 'process_bitmap_definition'):
         rr.instance('TemplateCompiler overrides %s' % nm)
